@@ -524,7 +524,12 @@ class SerializationSchemaBuilder(
             for field in fields
             if not field.is_aggregate
             for required in [
+                # a required key can still be skipped, e.g. Optional with exclude_none
                 field.required
+                and not field.skippable(
+                    settings.serialization.exclude_defaults,
+                    settings.serialization.exclude_none,
+                )
                 if is_typed_dict(get_origin_or_type(tp))
                 else not field.skippable(
                     settings.serialization.exclude_defaults,
